@@ -75,7 +75,15 @@ def gen_system(rng, max_types=3, max_res=8, max_count=3, kinds=None, shapes=("li
             ia = 0 if same_link_atom else rng.randrange(_nreal(residues[res[a]]))
             ib = 0 if same_link_atom else rng.randrange(_nreal(residues[res[b]]))
             links.append((ia, ib, round(rng.uniform(0.3, 0.45), 3)))
-        moltypes.append({"name": "M%d" % mi, "res": res, "edges": edges, "links": links, "shape": shape})
+        resids = list(range(1, nres + 1))
+        if nres >= 4 and rng.random() < 0.0:      # disabled: polyply requires unique residue ids per molecule (back-mapping and the walk crash otherwise)
+            # residue ids that restart inside the molecule (two chains written one after the other): two residues may
+            # share an id as long as they differ in name
+            h = nres // 2
+            trial = list(range(1, h + 1)) + list(range(1, nres - h + 1))
+            if len({(a, b) for a, b in zip(trial, res)}) == nres:
+                resids = trial
+        moltypes.append({"name": "M%d" % mi, "res": res, "edges": edges, "links": links, "shape": shape, "resids": resids})
     molecules = []
     for _ in range(rng.randint(1, len(moltypes) + 1)):
         molecules.append((rng.choice(moltypes)["name"], rng.randint(1, max_count)))
@@ -97,7 +105,7 @@ def render_moltype(sysd, mt):
         r = sysd["residues"][rn]
         first.append(k)
         for j, a in enumerate(r["atoms"]):
-            row = "%d %s %d %s %s %d %.3f" % (k + j, a["atype"], ri + 1, rn, a["name"], k + j, a["charge"])
+            row = "%d %s %d %s %s %d %.3f" % (k + j, a["atype"], mt.get("resids", range(1, 10 ** 6))[ri], rn, a["name"], k + j, a["charge"])
             if a["mass"] is not None:
                 row += " %r" % a["mass"]
             lines.append(row)
@@ -151,7 +159,7 @@ def expected_rows(sysd):
     for mt in expand(sysd):
         for ri, rn in enumerate(mt["res"]):
             for a in sysd["residues"][rn]["atoms"]:
-                rows.append((ri + 1, rn, a["name"]))
+                rows.append((mt.get("resids", range(1, 10 ** 6))[ri], rn, a["name"]))
     return rows
 
 
